@@ -1197,19 +1197,19 @@ pub fn shrink_ops(ops: &[Op]) -> Vec<Vec<Op>> {
 pub fn shrink_source(s: &SourceScript) -> Vec<SourceScript> {
     let mut out = Vec::new();
     if !s.is_plain() {
-        out.push(SourceScript { chunks: vec![], eof_at: s.eof_at, faults: vec![] });
+        out.push(SourceScript { chunks: vec![], eof_at: s.eof_at, faults: vec![], pauses: vec![] });
     }
     if !s.chunks.is_empty() {
-        out.push(SourceScript { chunks: vec![], eof_at: s.eof_at, faults: s.faults.clone() });
+        out.push(SourceScript { chunks: vec![], eof_at: s.eof_at, faults: s.faults.clone(), pauses: vec![] });
         if s.chunks.len() > 1 {
-            out.push(SourceScript { chunks: vec![s.chunks[0]], eof_at: s.eof_at, faults: s.faults.clone() });
-            out.push(SourceScript { chunks: vec![1], eof_at: s.eof_at, faults: s.faults.clone() });
+            out.push(SourceScript { chunks: vec![s.chunks[0]], eof_at: s.eof_at, faults: s.faults.clone(), pauses: vec![] });
+            out.push(SourceScript { chunks: vec![1], eof_at: s.eof_at, faults: s.faults.clone(), pauses: vec![] });
         }
     }
     for i in 0..s.faults.len() {
         let mut f = s.faults.clone();
         f.remove(i);
-        out.push(SourceScript { chunks: s.chunks.clone(), eof_at: s.eof_at, faults: f });
+        out.push(SourceScript { chunks: s.chunks.clone(), eof_at: s.eof_at, faults: f, pauses: vec![] });
     }
     out
 }
